@@ -565,4 +565,140 @@ theorem sound_c02Dropped (tr : Trace) (r : Nat)
     (h : monEndT (monAfter {} tr) none = some (.c02Dropped r)) : ¬ P_c02Answered tr :=
   (sound_monEndT_none tr _ h).2
 
+/-! ## C04 — cancelling a call returns promptly and cancels the peer's handler of exactly that request -/
+
+/-- A caller whose context is cancelled while it is blocked in Await (not parked anywhere) is on its
+way out in that very step: parked at the eager retire `R` or finished. -/
+def P_c04CtxStuck (tr : Trace) : Prop :=
+  ∀ k, k < tr.length → ∀ n, evAt tr k = some (.ectx n) → (before tr k).callParked n = false →
+    PTok.r n ∈ (obsAt tr k).parked ∨ (finCall (obsAt tr k).fins n).isSome = true
+
+/-- A handler context (of a request that has arrived) is cancelled with the read-error cause only
+after the reader saw the read error (RX). -/
+def P_c04ReadCause (tr : Trace) : Prop :=
+  ∀ k, k < tr.length → ∀ r, (r, XCause.read) ∈ (obsAt tr k).x → (r, XCause.read) ∉ (before tr k).x →
+    arrived tr r (k + 1) → ∃ t, t ≤ k ∧ evAt tr t = some .rx
+
+/-- A handler context (of a request that has arrived) is cancelled with the peer/finished cause only
+if the peer cancelled that very request (a K1 for an id under which it was indexed), or its
+processResult is at / past P2. -/
+def P_c04Unrelated (tr : Trace) : Prop :=
+  ∀ k, k < tr.length → ∀ r, (r, XCause.other) ∈ (obsAt tr k).x → (r, XCause.other) ∉ (before tr k).x →
+    arrived tr r (k + 1) →
+      (∃ t, t ≤ k ∧ ∃ id, evAt tr t = some (.k1 id) ∧ indexedAt tr t id = some r) ∨
+      PTok.p2 r ∈ (obsAt tr k).parked ∨
+      ∃ t, t ≤ k ∧ arrived tr r t ∧ evAt tr t = some (.p2 r)
+
+/-- When the peer's `Cancel(id)` (K1) runs, the request carrying `id` that a K1 found indexed, that
+has not finished (no P2) and whose handler is running or about to (H, A2, queued), has its context
+cancelled in that very step (or had it cancelled before). -/
+def P_c04NotCancelled (tr : Trace) : Prop :=
+  ∀ k, k < tr.length → ∀ id, evAt tr k = some (.k1 id) → ∀ r,
+    (∃ t, t ≤ k ∧ ∃ id', evAt tr t = some (.k1 id') ∧ indexedAt tr t id' = some r) →
+    (∃ t, ReadAt tr r t (.readCall id)) →
+    (¬ ∃ t, t ≤ k ∧ arrived tr r t ∧ evAt tr t = some (.p2 r)) →
+    (PTok.h r ∈ (before tr k).parked ∨ PTok.a2 r ∈ (before tr k).parked ∨ r ∈ (before tr k).q) →
+      ∃ x, x ∈ (before tr k).x ++ (obsAt tr k).x ∧ x.1 = r
+
+theorem sound_c04CtxStuck (tr : Trace) (l : Label) (o : Obs) (n : Nat)
+    (h : (monStepT (monAfter {} tr) l o).2 = some (.c04CtxStuck n)) : ¬ P_c04CtxStuck (tr ++ [(l, o)]) := by
+  obtain ⟨m, _, h1, h2, h3, h4⟩ := fires_of_step h
+  intro hP
+  have := hP tr.length (len_lt_snoc _ _) n (by rw [evAt_snoc_len, h1]) (by rw [before_snoc_len]; exact h2)
+  rw [obsAt_snoc_len, h4] at this
+  simp [h3] at this
+
+theorem arrived_len_succ {tr : Trace} {x : Label × Obs} {m : Mon} {n r : Nat}
+    (hm : Hist (tr ++ [x]) n m) (hr : r < m.reqs.length) : arrived (tr ++ [x]) r (tr.length + 1) := by
+  unfold arrived
+  rw [nreadsBefore_ge (by simp), ← hm.nreqs]
+  exact hr
+
+theorem sound_c04ReadCause (tr : Trace) (l : Label) (o : Obs) (r : Nat)
+    (h : (monStepT (monAfter {} tr) l o).2 = some (.c04ReadCause r)) : ¬ P_c04ReadCause (tr ++ [(l, o)]) := by
+  obtain ⟨m, hm, h1, h2, h3, h4⟩ := fires_of_step h
+  intro hP
+  obtain ⟨t, _, ht⟩ := hP tr.length (len_lt_snoc _ _) r (by rw [obsAt_snoc_len]; exact h1)
+    (by rw [before_snoc_len]; exact h2) (arrived_len_succ hm h3)
+  have := hm.rx.mpr ⟨t, ht⟩
+  simp [h4] at this
+
+theorem sound_c04Unrelated (tr : Trace) (l : Label) (o : Obs) (r : Nat)
+    (h : (monStepT (monAfter {} tr) l o).2 = some (.c04Unrelated r)) : ¬ P_c04Unrelated (tr ++ [(l, o)]) := by
+  obtain ⟨m, hm, h1, h2, q, hq, h3, h4, h5⟩ := fires_of_step h
+  intro hP
+  have hr : r < m.reqs.length := (List.getElem?_eq_some_iff.mp hq).1
+  rcases hP tr.length (len_lt_snoc _ _) r (by rw [obsAt_snoc_len]; exact h1)
+    (by rw [before_snoc_len]; exact h2) (arrived_len_succ hm hr) with ⟨t, _, id, ht, hi⟩ | hp | ⟨t, _, ha, ht⟩
+  · have := (hm.req r q hq).pc.mpr ⟨t, id, ht, hi⟩
+    simp [h3] at this
+  · rw [obsAt_snoc_len] at hp; exact h4 hp
+  · have := (hm.req r q hq).p2d.mpr ⟨t, ha, ht⟩
+    simp [h5] at this
+
+theorem sound_c04NotCancelled (tr : Trace) (l : Label) (o : Obs) (id r : Nat)
+    (h : (monStepT (monAfter {} tr) l o).2 = some (.c04NotCancelled id r)) :
+    ¬ P_c04NotCancelled (tr ++ [(l, o)]) := by
+  obtain ⟨m, hm, h1, q, hq, h2, h3, h4, h5, h6⟩ := fires_of_step h
+  intro hP
+  have hq' := hm.req r q hq
+  obtain ⟨t, id', ht, hi⟩ := hq'.pc.mp h2
+  obtain ⟨e, he, hr, hid, _⟩ := hq'.kind
+  have : e = .readCall id := by
+    rw [h3] at hid
+    cases e <;> simp_all [Ev.reqId]
+  subst this
+  obtain ⟨tr0, hread⟩ := exists_readAt _ he
+  obtain ⟨x, hx, hxr⟩ := hP tr.length (len_lt_snoc _ _) id (by rw [evAt_snoc_len, h1]) r
+    ⟨t, evAt_snoc_le ht, id', ht, hi⟩ ⟨tr0, hread⟩
+    (by
+      rintro ⟨t2, _, ha, ht2⟩
+      have := hq'.p2d.mpr ⟨t2, ha, ht2⟩
+      simp [h4] at this)
+    (by rw [before_snoc_len]; exact h6)
+  rw [before_snoc_len, obsAt_snoc_len] at hx
+  exact h5 x hx hxr
+
+/-! ## C03 — a notification's handler finishes before the handler of any later message starts;
+handlers start in arrival order -/
+
+/-- The handler of request `j` (which had arrived) was seen running at a position before `k`. -/
+def startedBefore (tr : Trace) (j k : Nat) : Prop :=
+  ∃ i, i < k ∧ arrived tr j (i + 1) ∧ PTok.h j ∈ (obsAt tr i).parked
+
+/-- When the handler of request `j` is first seen running, every earlier request whose handler has
+started has released the dispatcher (called `Async`, or its processResult is past P2) — c03BeforeSync —
+and no later request's handler has started — c03LaterFirst. -/
+def P_c03Order (tr : Trace) : Prop :=
+  ∀ k, k < tr.length → ∀ j, PTok.h j ∈ (obsAt tr k).parked → ¬ startedBefore tr j k →
+    (∀ i, i < j → startedBefore tr i k →
+      ∃ t, t ≤ k ∧ arrived tr i t ∧ (evAt tr t = some (.hasync i) ∨ evAt tr t = some (.p2 i))) ∧
+    (∀ i, j < i → ¬ startedBefore tr i k)
+
+theorem startedBefore_of_hist {tr : Trace} {m : Mon} {r : Nat} {q : MReq} (hm : Hist tr n m)
+    (hq : m.reqs[r]? = some q) : q.started = true ↔ startedBefore tr r n :=
+  (hm.req r q hq).st
+
+theorem sound_c03BeforeSync (tr : Trace) (l : Label) (o : Obs) (j i : Nat)
+    (h : (monStepT (monAfter {} tr) l o).2 = some (.c03BeforeSync j i)) : ¬ P_c03Order (tr ++ [(l, o)]) := by
+  obtain ⟨m, hm, h1, _, qj, qi, hqj, hsj, hqi, hij, hsi, hai, hpi⟩ := fires_of_step h
+  intro hP
+  have hnj : ¬ startedBefore (tr ++ [(l, o)]) j tr.length := by
+    rw [← startedBefore_of_hist hm hqj, hsj]; simp
+  obtain ⟨hP1, _⟩ := hP tr.length (len_lt_snoc _ _) j (by rw [obsAt_snoc_len]; exact h1) hnj
+  obtain ⟨t, _, ha, ht | ht⟩ := hP1 i hij ((startedBefore_of_hist hm hqi).mp hsi)
+  · have := (hm.req i qi hqi).asy.mpr ⟨t, ha, ht⟩
+    simp [hai] at this
+  · have := (hm.req i qi hqi).p2d.mpr ⟨t, ha, ht⟩
+    simp [hpi] at this
+
+theorem sound_c03LaterFirst (tr : Trace) (l : Label) (o : Obs) (i j : Nat)
+    (h : (monStepT (monAfter {} tr) l o).2 = some (.c03LaterFirst i j)) : ¬ P_c03Order (tr ++ [(l, o)]) := by
+  obtain ⟨m, hm, h1, _, qj, qi, hqj, hsj, hqi, hij, hsi⟩ := fires_of_step h
+  intro hP
+  have hnj : ¬ startedBefore (tr ++ [(l, o)]) j tr.length := by
+    rw [← startedBefore_of_hist hm hqj, hsj]; simp
+  obtain ⟨_, hP2⟩ := hP tr.length (len_lt_snoc _ _) j (by rw [obsAt_snoc_len]; exact h1) hnj
+  exact hP2 i hij ((startedBefore_of_hist hm hqi).mp hsi)
+
 end Conn
